@@ -622,6 +622,8 @@ class Project(NamedItem):
         if measurables is None:
             measurables = list(self.framework.comps.index)
             measurables += list(self.framework.characs.index)
+        adjustables = list(adjustables)  # The defaults are filled in below, which must not modify the caller's lists
+        measurables = list(measurables)
         for index, adjustable in enumerate(adjustables):
             if sc.isstring(adjustable):  # Assume that a parameter name was passed in if not a tuple.
                 adjustables[index] = (adjustable, None, default_min_scale, default_max_scale)
